@@ -281,7 +281,10 @@ package actor
 //@   invariant forall k mathint :: k != kKilledSys() ==> gcount(toldn, k) == old(gcount(toldn, k))
 
 // steps of the chain that run user code / the job scheduler: trusted frames (they tell nobody on behalf of the
-// core, do not touch the registry, and leave the core fields the later steps read alone)
+// core, do not touch the registry, and leave the core fields the later steps read alone). ASSUMED with that: the
+// behaviour run for a child's OnKilled / the actor's own OnKilled does not itself fail - a failure there is reported
+// to the supervisor (executeBehaviorWithRecovery's contract), a message the "nobody else is told" posts of onKilled
+// do not account for. The behaviour MAY spawn children (the child table may grow) and schedule / cancel jobs.
 // handleChildDeath stays a trusted frame towards its callers (it runs the parent's behaviour - user code - for the
 // child's OnKilled), but its body is checked (`bodycheck`) for the ORDER of its two steps: the dead child's entry
 // leaves the child table BEFORE the behaviour sees the OnKilled. The table is keyed by path and the path is free
@@ -297,7 +300,6 @@ package actor
 //@   requires h.ctx != nil && h.message != nil && schedok(h.ctx)
 //@   modifies h.ctx.children[*], h.ctx.scheduler.jobKeys[*], gmap(schedtried), gmap(scheduled), gmap(deleted)
 //@   ensures  schedok(h.ctx)
-//@   ensures  len(h.ctx.children) <= old(len(h.ctx.children))
 // (user code: it has the full ActorContext, so it may schedule and cancel jobs of this actor)
 //@ func (*killedHandler).executeBehavior
 //@   trusted
